@@ -26,7 +26,7 @@ func ZZ_C17_RealCycle() {
 	lg.Warn(m1)
 	d2 := d1 + 86400000
 	zzvf.Clock = d2 + int64(zzvf.IntRange(0, 3600000))
-	zzvf.SleepYield(10500) // the next cycle (10 s period) sees the new date
+	zzvf.SleepYield(12500) // the next cycle (10 s period) sees the new date (natively: margin for a loaded machine)
 	lg.Warn(m2)
 	f1 := filepath.Join(home, "logs", "whatap-boot-"+zzYmd(d1)+".log")
 	f2 := filepath.Join(home, "logs", "whatap-boot-"+zzYmd(d2)+".log")
